@@ -1,0 +1,12 @@
+//go:build !verif
+
+package analyzer
+
+import (
+	"golang.org/x/tools/go/analysis"
+)
+
+// No-op counterparts of the hooks in verif_on.go.
+
+func verifPass(string, *analysis.Pass) {}
+func verifPrep(string)                 {}
